@@ -34,7 +34,10 @@ type c10Case struct {
 	Versions []int     `json:"versions"` // per key: number of versions its announcer publishes
 	// Opt[k]: key k's templates are options templates with 5 scope fields in front of the v version fields
 	// (decoders of one options template share its scope specifier slice)
-	Opt      []bool      `json:"opt,omitempty"`
+	Opt []bool `json:"opt,omitempty"`
+	// ScopeOnly[k] (with Opt[k]): key k's templates are options templates whose v fields are ALL scope fields
+	// (scope field count == field count: valid, and the shape of every "per-interface name" style option)
+	ScopeOnly []bool `json:"scope_only,omitempty"`
 	AnnYield [][]int     `json:"ann_yield"`
 	Readers  []c10Reader `json:"readers"`
 	Dumpers  []int       `json:"dumpers"` // per dumper: number of dumps
@@ -42,7 +45,7 @@ type c10Case struct {
 }
 
 const c10Rule = "case = concurrency plan: protocol (ipfix | nf9), 2..6 (exporter,id) keys (disjoint, same-exporter, same-shard and full-hash-colliding pairs), one announcer goroutine per key publishing template versions 1..V " +
-	"(version v = v fields of element e_v; a third of the keys use options templates with 5 scope fields of e_v in front), 1..6 reader goroutines (decode data for a key, peer Get, decode an unannounced key), 0..3 dumper goroutines calling Dump, drawn Gosched/sleep points; executed 1..3 rounds under the Go race detector; " +
+	"(version v = v fields of element e_v; a third of the keys use options templates with 5 scope fields of e_v in front, or — a third of those — options templates whose v fields are all scope fields), 1..6 reader goroutines (decode data for a key, peer Get, decode an unannounced key), 0..3 dumper goroutines calling Dump, drawn Gosched/sleep points; executed 1..3 rounds under the Go race detector; " +
 	"oracle = (1) no race report / fatal runtime error; (2) every lookup is 'unknown' (only if nothing had been announced for the key when it began) or one COMPLETE version v of exactly that key with " +
 	"done(k) at start <= v <= started(k) at end; (3) every dump file loads and holds only complete versions, each >= done(k) at dump start; " +
 	"non-trivial = the plan has >= 1 dumper and >= 1 reader on a key whose announcer publishes >= 2 versions (lookups and dumps overlap announcements); distinct by hash"
@@ -54,8 +57,15 @@ var versionElems = []uint16{0, 10, 14, 16, 17, 18, 19, 20, 21, 22, 31, 34, 35}
 
 const c10ScopeFields = 5
 
-func versionTemplate(id uint16, v int, opt bool) wire.Template {
+func versionTemplate(id uint16, v int, opt, scopeOnly bool) wire.Template {
 	tp := wire.Template{ID: id}
+	if opt && scopeOnly {
+		tp.Options = true
+		for i := 0; i < v; i++ {
+			tp.Scope = append(tp.Scope, wire.Field{ID: versionElems[v], Len: 4, Type: wire.TUint32})
+		}
+		return tp
+	}
 	if opt {
 		tp.Options = true
 		for i := 0; i < c10ScopeFields; i++ {
@@ -70,9 +80,11 @@ func versionTemplate(id uint16, v int, opt bool) wire.Template {
 
 func (c *c10Case) isOpt(k int) bool { return k < len(c.Opt) && c.Opt[k] }
 
+func (c *c10Case) scopeOnly(k int) bool { return c.isOpt(k) && k < len(c.ScopeOnly) && c.ScopeOnly[k] }
+
 // fieldsOf returns the number of fields a record (or template) of version v of key k has.
 func (c *c10Case) extra(k int) int {
-	if c.isOpt(k) {
+	if c.isOpt(k) && !c.scopeOnly(k) {
 		return c10ScopeFields
 	}
 	return 0
@@ -120,6 +132,7 @@ func genC10(t *rapid.T) c10Case {
 	for range c.Slots {
 		opt := rapid.IntRange(0, 2).Draw(t, "optkey") == 0
 		c.Opt = append(c.Opt, opt)
+		c.ScopeOnly = append(c.ScopeOnly, opt && rapid.IntRange(0, 2).Draw(t, "scopeonly") == 0)
 		nv := rapid.IntRange(1, c10MaxVersions).Draw(t, "nversions")
 		if opt && nv > 7 {
 			nv = 7 // a record of version v has (5+v)*4 octets and must fit the 48-octet probe
@@ -272,7 +285,7 @@ func c10Round(c *c10Case, dir string, round int) error {
 			<-start
 			sl := c.Slots[k]
 			for ver := 1; ver <= c.Versions[k]; ver++ {
-				tp := versionTemplate(sl.ID, ver, c.isOpt(k))
+				tp := versionTemplate(sl.ID, ver, c.isOpt(k), c.scopeOnly(k))
 				kind := "tpl"
 				if tp.Options {
 					kind = "opt"
@@ -369,8 +382,12 @@ func c10Round(c *c10Case, dir string, round int) error {
 						continue
 					}
 					all := append(append([]ipfix.TemplateFieldSpecifier{}, resp.ScopeFieldSpecifiers...), resp.FieldSpecifiers...)
-					if len(resp.ScopeFieldSpecifiers) != c.extra(k) || int(resp.ScopeFieldCount) != c.extra(k) {
-						fail("peer Get of key %d returned a template with %d scope fields (count %d), announced %d", k, len(resp.ScopeFieldSpecifiers), resp.ScopeFieldCount, c.extra(k))
+					wantScope := c.extra(k)
+					if c.scopeOnly(k) {
+						wantScope = len(all)
+					}
+					if len(resp.ScopeFieldSpecifiers) != wantScope || int(resp.ScopeFieldCount) != wantScope {
+						fail("peer Get of key %d returned a template with %d scope fields (count %d), announced %d", k, len(resp.ScopeFieldSpecifiers), resp.ScopeFieldCount, wantScope)
 						return
 					}
 					obs, e := observedVersion(sl.ID, len(all), func(i int) uint16 { return all[i].ElementID }, int(resp.TemplateID), int(resp.FieldCount), c.extra(k))
